@@ -68,7 +68,7 @@ def _init():
 
 PLAIN = ["Red", "Blue", "Green", "Square", "Circle", "Triangle", "Cross", "Face", "Yellow", "Black", "White", "Star",
          "Arrow", "Hand", "Foot"]
-VALUE = [("Age/#", ["5", "23", "41"]), ("Label/#", ["abc", "Tr1", "x9"]), ("ID/#", ["77", "a1"]),
+VALUE = [("Age/#", ["5", "23", "41"]), ("Label/#", ["abc", "Tr1", "x9", "TR1"]), ("ID/#", ["77", "a1"]),
          ("Frequency/# Hz", ["3", "12.5"]), ("Distance/# m", ["2", "0.5"])]
 NAMES = ["Alpha", "beta", "Gamma7", "Delta-x", "MyDef"]
 
@@ -478,6 +478,23 @@ def _lib_canon(text):
     return vocab.canon(vocab.parse(text))
 
 
+_CASED_VALUES = {"tr1"}      # placeholder values of VALUE that exist in more than one letter case
+
+
+def _cased_values(tree):
+    """Case-exact multiset of the final path segments that are one of the case-variant placeholder values: the tree
+    comparison folds case, but 'with # replaced by v' means v as written, also after another spelling was expanded."""
+    out = []
+    for it in tree:
+        if isinstance(it, list):
+            out.extend(_cased_values(it))
+        else:
+            seg = it.strip().rsplit("/", 1)[-1].strip()
+            if seg.casefold() in _CASED_VALUES:
+                out.append(seg)
+    return sorted(out)
+
+
 def execute(sc, script=None):
     global _NS
     _NS = ""
@@ -546,6 +563,10 @@ def _execute_history(sc):
             if got != want:
                 viol("tree-equals-model", "after step %d (%s) object %d is %r but the reference tree is %r"
                      % (step, op, idx, txt, render_top(m)), "differs-after-%s%s" % (op, "-on-other-object" if idx != cur_idx[0] else ""))
+                return False
+            if _cased_values(vocab.parse(txt)) != _cased_values(vocab.parse(render_top(m))):
+                viol("tree-equals-model", "after step %d (%s) object %d is %r but the reference tree is %r: a placeholder value "
+                     "changed its letter case" % (step, op, idx, txt, render_top(m)), "value-case-differs-after-%s" % op)
                 return False
         return True
 
